@@ -138,7 +138,7 @@ def unit3(name, zsign=("p", "p")):
   subst hl0 hl1 hl2
   simp only [solM3, M3.mk.injEq] at hM
   obtain ⟨rfl, rfl, rfl, rfl, rfl, rfl, rfl, rfl, rfl⟩ := hM
-  simp only [solvp]
+  (try simp only [solvp])
   refine ⟨?_, ?_, ?_, ?_, ?_, ?_⟩
   · c05_dec hc
   · c05_dec hc
@@ -203,7 +203,7 @@ def unit2(name, zsign=("p", "p")):
   subst hl0 hl1 hl2
   simp only [solM2, M2, M3.mk.injEq, and_true, true_and] at hM
   obtain ⟨rfl, rfl, rfl, rfl⟩ := hM
-  simp only [solvp]
+  (try simp only [solvp])
   refine ⟨?_, ?_, ?_, ?_, ?_, ?_⟩
   · c05_dec hc
   · c05_dec hc
@@ -254,7 +254,7 @@ theorem N3_dect_{name} (hc : c * c = 2)
   subst hl0 hl1 hl2
   simp only [solM3, M3.mk.injEq] at hM
   obtain ⟨rfl, rfl, rfl, rfl, rfl, rfl, rfl, rfl, rfl⟩ := hM
-  simp only [solvp]
+  (try simp only [solvp])
   c05_unfold
   simp only [List.cons_append, List.nil_append, List.cons.injEq, and_true, true_and, div_eq_mul_inv,
     c_inv hc two_ne_zero]
